@@ -106,6 +106,12 @@ pub fn run(ctx: &Ctx) -> i32 {
     let cfg_p = FloatCfg { planners: PK::DISTINCT.to_vec(), entries: t.pick(vec![Entry::InPlace, Entry::Immut], Entry::ALL.to_vec()), lens: primes.clone(), full_basis_max: 0, use_struct: false, ..cfg.clone() };
     let pr = floatlayer::run(&cfg_p);
     rep.merge(pr);
+    // lengths beyond 2^16 (16-bit index arithmetic), lightest alphabet
+    let big: Vec<usize> = lens::beyond_u16(t == crate::framework::Tier::Thorough).iter().map(|x| x.0).collect();
+    let cfg_b = FloatCfg { planners: PK::DISTINCT.to_vec(), entries: t.pick(vec![Entry::InPlace, Entry::Immut], Entry::ALL.to_vec()), lens: big.clone(), full_basis_max: 0, use_struct: true, ..cfg.clone() };
+    let br = floatlayer::run(&cfg_b);
+    rep.merge(br);
+    rep.set("lengths_beyond_2^16", Json::Arr(big.iter().map(|x| Json::Int(*x as i64)).collect()));
     rep.set("all_primes_up_to", prime_hi);
     rep.set("primes_run", primes.len());
     // ---- exact layer
@@ -140,7 +146,7 @@ pub fn run(ctx: &Ctx) -> i32 {
     rep.set("pool_lengths_float", Json::Arr(pool_sel.iter().map(|x| Json::Int(x.0 as i64)).collect()));
     rep.set("pool_lengths_exact", Json::Arr(ex_pool.iter().map(|x| Json::Int(x.0 as i64)).collect()));
     rep.rule = format!(
-        "float layer: planners {{auto,scalar,sse,avx}} x {{f32,f64}} x {{fwd,inv}} x 4 entry points x every n in 0..={dn} with the complete real basis (2n impulses) and the STRUCT alphabet, plus {pc} computed pool lengths up to {ph} with 22 impulse positions x2 and closed-form STRUCT members, plus EVERY prime up to {pp} (planners scalar/sse/avx, 22 impulse positions x2); oracle: relative L2 error against a double-double naive DFT <= {tm}*16*eps*log2(2n). exact layer: FftPlanner::<Fp> (prime field, two primes) x {{fwd,inv}} x 4 entry points x every n in 0..={en} with the complete basis, zero vector and a dense vector, plus pool lengths with stratified impulses; oracle: equality in F_p, no data*data product, no poison. A case is non-trivial if n >= 2 and the input is non-zero; distinct = distinct (config, n, entry, input) tuples.",
+        "float layer: planners {{auto,scalar,sse,avx}} x {{f32,f64}} x {{fwd,inv}} x 4 entry points x every n in 0..={dn} with the complete real basis (2n impulses) and the STRUCT alphabet, plus {pc} computed pool lengths up to {ph} with 22 impulse positions x2 and closed-form STRUCT members, plus EVERY prime up to {pp} (planners scalar/sse/avx, 22 impulse positions x2), plus one length of every plan class just above 2^16 and up to ~2^20 (listed under lengths_beyond_2^16; closed-form STRUCT members and 22 impulse positions x2); oracle: relative L2 error against a double-double naive DFT <= {tm}*16*eps*log2(2n). exact layer: FftPlanner::<Fp> (prime field, two primes) x {{fwd,inv}} x 4 entry points x every n in 0..={en} with the complete basis, zero vector and a dense vector, plus pool lengths with stratified impulses; oracle: equality in F_p, no data*data product, no poison. A case is non-trivial if n >= 2 and the input is non-zero; distinct = distinct (config, n, entry, input) tuples.",
         dn = dense_n,
         pc = pool_sel.len(),
         ph = t.pick(1 << 16, 1 << 20),
